@@ -16,15 +16,15 @@ import (
 )
 
 type SolveResult struct {
-	Status   string // "unsat" (discharged), "sat", "unknown", "timeout", "error"
-	Backend  string
-	Seconds  float64
-	Output   string
-	Model    map[string]string
+	Status    string // "unsat" (discharged), "sat", "unknown", "timeout", "error"
+	Backend   string
+	Seconds   float64
+	Output    string
+	Model     map[string]string
 	ModelList []string
-	File     string
-	Disagree string
-	All      map[string]string
+	File      string
+	Disagree  string
+	All       map[string]string
 }
 
 type backend struct {
@@ -53,7 +53,9 @@ func oblFile(outDir, name string) string {
 // Render builds the SMT script of an obligation: facts ∧ pc ∧ ¬goal.
 func (ex *Exec) Render(o *Obligation) string { return ex.renderWith(o, nil) }
 
-func (ex *Exec) renderWith(o *Obligation, extra []*Term) string { return ex.renderOpt(o, extra, false, false) }
+func (ex *Exec) renderWith(o *Obligation, extra []*Term) string {
+	return ex.renderOpt(o, extra, false, false)
+}
 
 // renderOpt: ground=true drops quantified facts (a relaxation used only to find candidate inputs, which must
 // then replay on the real code); negGoal=false asserts the goal positively (used by the replay confirmation).
@@ -66,11 +68,15 @@ func (ex *Exec) renderOpt(o *Obligation, extra []*Term, ground bool, positive bo
 		ex.p.RecAsDefine = true
 		defer func() { ex.p.RecAsDefine = false }()
 	}
-	for _, f := range ex.facts[:o.NFacts] {
+	relevant := ex.relevantFacts(o, extra)
+	for fi, f := range ex.facts[:o.NFacts] {
 		if f.IsTrue() || seen[f.id] {
 			continue
 		}
 		if ground && f.HasQuant(qmemo) {
+			continue
+		}
+		if relevant != nil && !relevant[fi] {
 			continue
 		}
 		seen[f.id] = true
@@ -233,4 +239,94 @@ func writeFile(path, content string) error {
 		return err
 	}
 	return os.WriteFile(path, []byte(content), 0o644)
+}
+
+// symbolsOf collects the free constants and uninterpreted functions of a term (memoised per executor).
+func (ex *Exec) symbolsOf(t *Term) map[string]bool {
+	if s, ok := ex.symMemo[t.id]; ok {
+		return s
+	}
+	out := map[string]bool{}
+	seen := map[int]bool{}
+	var rec func(t *Term)
+	rec = func(t *Term) {
+		if seen[t.id] {
+			return
+		}
+		seen[t.id] = true
+		switch t.Op {
+		case "const":
+			if !strings.HasPrefix(t.Name, "heapTop") {
+				out[t.Name] = true
+			}
+		case "app":
+			if t.Fn != nil && t.Fn.DefBody == nil {
+				out["fn:"+t.Name] = true
+			}
+		}
+		for _, a := range t.Args {
+			rec(a)
+		}
+	}
+	rec(t)
+	ex.symMemo[t.id] = out
+	return out
+}
+
+// relevantFacts: cone of influence. A fact is kept if it shares a symbol with the goal, the path condition, or
+// (transitively) another kept fact. Dropping assumptions is always sound for a proof; it only removes noise.
+// Quantified facts (axioms) are always kept.
+func (ex *Exec) relevantFacts(o *Obligation, extra []*Term) map[int]bool {
+	if o.Kind == "requires-sat" || o.Kind == "reach" {
+		return nil // vacuity covers must see every fact
+	}
+	n := o.NFacts
+	syms := make([]map[string]bool, n)
+	qm := map[int]bool{}
+	keep := map[int]bool{}
+	rel := map[string]bool{}
+	add := func(m map[string]bool) {
+		for k := range m {
+			rel[k] = true
+		}
+	}
+	add(ex.symbolsOf(o.PC))
+	add(ex.symbolsOf(o.Goal))
+	for _, e := range extra {
+		add(ex.symbolsOf(e))
+	}
+	for i := 0; i < n; i++ {
+		f := ex.facts[i]
+		if f.HasQuant(qm) {
+			keep[i] = true
+			add(ex.symbolsOf(f))
+			continue
+		}
+		syms[i] = ex.symbolsOf(f)
+	}
+	for changed := true; changed; {
+		changed = false
+		for i := 0; i < n; i++ {
+			if keep[i] || syms[i] == nil {
+				continue
+			}
+			hit := len(syms[i]) == 0
+			for k := range syms[i] {
+				if rel[k] {
+					hit = true
+					break
+				}
+			}
+			if hit {
+				keep[i] = true
+				for k := range syms[i] {
+					if !rel[k] {
+						rel[k] = true
+						changed = true
+					}
+				}
+			}
+		}
+	}
+	return keep
 }
